@@ -20,6 +20,7 @@ package hotline
 //@   ensures len(r.Data) == len(data) && u16(bytes(r.FieldSize)) == len(data)
 //@   ensures forall(i, 0, len(data), r.Data[i] == old(data[i]))
 //@   ensures fresh(r.Data)
+//@   modifies nothing
 //@   nopanic
 
 //@ func (f *Field) Write(p []byte) (n int, err error)
@@ -222,6 +223,7 @@ package hotline
 //@   requires fpi != nil
 //@   ensures len(b) < 3 ==> err != nil
 //@   ensures len(b) >= 3 && len(b) >= 3+b[2] ==> err == nil && n == 3+b[2] && fpi.Len == b[2] && bytes(fpi.Name) == bytes(b)[3:3+b[2]]
+//@   modifies fpi.Len, fpi.Name
 
 //@ func fileItemScanner(data []byte, atEOF bool) (advance int, token []byte, err error)
 //@   ensures err == nil
@@ -386,7 +388,9 @@ package hotline
 //@   before any call io.CopyN assert writer_kind(arg0) != 1 || reader_kind(arg1) == 2
 //@   before any call io.Copy assert writer_kind(arg0) != 1 || reader_kind(arg1) == 2
 //@   before call (io.Reader).Read assert false
-//@   ensures err == nil ==> written(targetFile) == max(callres("(*hotline.flattenedFileObject).dataSize"), 0)
+//@   property C02 C09 C10
+//@   requires obj(targetFile) != obj(resForkFile) && obj(targetFile) != obj(infoFork) && obj(targetFile) != obj(counterWriter)
+//@   ensures err == nil ==> written(targetFile) == old(written(targetFile)) + max(callres("(*hotline.flattenedFileObject).dataSize"), 0)
 
 // C09: the partial file keeps what it already holds (append, never truncate); nothing is opened or
 // renamed when the final name exists; the final name appears only after a complete receive.
@@ -439,11 +443,19 @@ package hotline
 // C07: containment.  ROOT is the root of the run; inroot / rooted / seg are the predicates of
 // /verif/spec/paths.spec.
 
+// Parsing an encoded path fills the FilePath value and nothing else.
+
+//@ func (fp *FilePath) Write(b []byte) (n int, err error)
+//@   requires fp != nil && isnil(fp.Items)
+//@   modifies fp.ItemCount, fp.Items
+//@   loop 1 modifies fp.Items
+
 //@ func ReadPath(fileRoot string, filePath []byte, fileName []byte) (fullPath string, err error)
 //@   property C07
 //@   requires fileRoot == ROOT
 //@   ensures err == nil ==> inroot(fullPath)
 //@   loop 1 invariant subPath == "" || rooted(subPath)
+//@   loop 1 modifies nothing
 //@   modifies nothing
 
 //@ func NewFileWrapper(fs FileStore, path string, dataOffset int64) (r *fileWrapper, err error)
@@ -489,6 +501,7 @@ package hotline
 //@ func (fu *folderUpload) FormattedPath() (r string)
 //@   property C07
 //@   ensures relsafe(r)
+//@   loop 1 modifies nothing
 //@   modifies nothing
 
 //@ func UploadFolderHandler(rwc io.ReadWriter, fullPath string, fileTransfer *FileTransfer, fileStore FileStore, rLogger *slog.Logger, preserveForks bool) (err error)
@@ -631,8 +644,9 @@ package hotline
 //@   ensures err == nil ==> wcalls(w) == old(nhdr) + 2 + ite(old(fileTransfer.FileResumeData) == nil, 1, 0)
 //@   ensures err != nil ==> ghost(envfail) != 0 || ghost(shortskip) != 0
 
+// (assumed for the transfer properties; NewFileWrapper's body reads the stored side files)
 //@ func NewFileWrapper(fs FileStore, path string, dataOffset int64) (r *fileWrapper, err error)
-//@   property C08
+//@   property C08 C10 C11
 //@   ensures (err == nil) == (r != nil)
 //@   ensures err == nil ==> r.Ffo != nil && r.Ffo.readOffset == 0 && inv_FFO(r.Ffo) && r.dataOffset == dataOffset && fresh(r) && fresh(r.Ffo) && disjoint(r, r.Ffo)
 //@   modifies nothing
@@ -646,8 +660,161 @@ package hotline
 //@   before call PutUint32#2 assert arg2 == (callres("(io/fs.FileInfo).Size#2") - f.dataOffset) % 4294967296
 
 //@ func (ffo *flattenedFileObject) TransferSize(offset int64) (r []byte)
-//@   property C08
 //@   requires ffo != nil && ffo.readOffset == 0 && inv_FFO(ffo)
 //@   ensures len(r) == 4 && u32(bytes(r)) == (u32(bytes(ffo.FlatFileDataForkHeader.DataSize)) + u32(bytes(ffo.FlatFileResForkHeader.DataSize)) + len(wire_FFO(ffo)) - offset) % 4294967296
 //@   ensures ffo.readOffset == 0 && wire_FFO(ffo) == old(wire_FFO(ffo))
+//@   modifies nothing
 //@   nopanic
+
+// ---------------------------------------------------------------------------------
+// C10: folder transfers.  Both walk callbacks treat an entry the same way -- it counts / gets an
+// item header exactly when its name does not start with a dot -- and neither prunes the walk
+// (filepath.SkipDir); the announced count is the number of counted entries minus the root.
+
+//@ func CalcItemCount$1(path string, info os.FileInfo, err error) (r error)
+//@   property C10
+//@   before call strings.HasPrefix assert arg1 == "." && arg0 == callres("Name")
+//@   ensures r == nil || same(r, err)
+//@   ensures err == nil ==> r == nil && *itemCount == (old(*itemCount) + ite(callres("strings.HasPrefix"), 0, 1)) % 65536
+//@   ensures err != nil ==> *itemCount == old(*itemCount)
+
+//@ func CalcItemCount(filePath string) (r []byte, err error)
+//@   property C10
+//@   before call PutUint16 assert arg2 == (itemCount - 1) % 65536
+//@   before call path/filepath.Walk assert arg0 == filePath && itemCount == 0
+
+// The item header: type 1 for a folder, 0 for a file; its size field covers type and path.
+
+//@ func EncodeFilePath(filePath string) (r []byte)
+//@   property C10
+//@   ensures len(r) >= 2
+//@   modifies nothing
+//@   loop 1 invariant len(bytes) >= 2
+//@   loop 1 modifies nothing
+
+//@ func NewFileHeader(fileName string, isDir bool) (fh FileHeader)
+//@   property C10
+//@   ensures fh.Type[0] == 0 && fh.Type[1] == ite(isDir, 1, 0) && fh.readOffset == 0
+//@   ensures u16(bytes(fh.Size)) == (len(fh.FilePath) + 2) % 65536
+//@   modifies nothing
+
+// Decoding the client's resume data touches the decoded value only.
+
+//@ func (frd *FileResumeData) UnmarshalBinary(b []byte) (err error)
+//@   property C10
+//@   requires frd != nil
+//@   modifies frd.Format, frd.Version, frd.ForkCount, frd.ForkInfoList
+//@   loop 1 modifies frd.ForkInfoList
+
+// One visited entry of a folder download: header only for a visible entry that is not the root;
+// then the client's choice: next file sends nothing more; otherwise the size prefix
+// TransferSize(offset), the flattened header, the data fork from the offset to its end.
+
+//@ func DownloadFolderHandler$1(path string, info os.FileInfo, err error) (r error)
+//@   property C10
+//@   let conn := *rwc
+//@   requires *i >= 0 && *i < 1000000000
+//@   before call strings.HasPrefix assert arg1 == "." && arg0 == callres("Name#1")
+//@   before call io.Copy#1 assert err == nil
+//@   before call io.Copy#1 assert !callres("strings.HasPrefix")
+//@   before call io.Copy#1 assert *i != 1
+//@   before call io.Copy#1 assert same(arg0, conn)
+//@   before call io.Copy#1 assert wcalls(conn) == 0
+//@   before call hotline.NewFileHeader assert arg1 == callres("IsDir#1")
+//@   before call (io.ReadWriter).Write assert wcalls(conn) == 1
+//@   before call (io.ReadWriter).Write assert same(arg1, callres("(*hotline.flattenedFileObject).TransferSize#2"))
+//@   before call (io.ReadWriter).Write assert callarg("(*hotline.flattenedFileObject).TransferSize#2", 1) == dataOffset
+//@   before call (io.ReadWriter).Write assert same(arg0, conn)
+//@   before call io.Copy#2 assert same(arg0, conn) && wcalls(conn) == 2
+//@   before call io.Copy#3 assert same(arg0, conn) && wcalls(conn) == 3 && spos(arg1) == dataOffset
+//@   before call (hotline.FileStore).Open assert arg1 == path
+//@   ensures r != nil ==> same(r, err) || ghost(envfail) != 0
+//@   ensures err != nil ==> same(r, err) && wcalls(conn) == 0
+//@   ensures err == nil && ghost(envfail) == 0 ==> (wcalls(conn) >= 1) == (!callres("strings.HasPrefix") && *i != 1)
+//@   ensures *i == old(*i) + 1
+
+// Folder upload: a partial file is appended to (never truncated), a name becomes final only
+// after a complete receive, the action sent for an item follows what is on disk (complete: next,
+// partial: resume, absent: send), the resume offset is the partial file's size, folders are only
+// created when missing.
+
+//@ func UploadFolderHandler(rwc io.ReadWriter, fullPath string, fileTransfer *FileTransfer, fileStore FileStore, rLogger *slog.Logger, preserveForks bool) (err error)
+//@   property C10
+//@   before call os.OpenFile assert bitof(arg1, 10) == 1 && bitof(arg1, 9) == 0
+//@   before any call (hotline.FileStore).OpenFile assert bitof(arg2, 10) == 1 && bitof(arg2, 9) == 0
+//@   before call os.Rename#1 assert callres("hotline.receiveFile#1") == nil
+//@   before call os.Rename#2 assert callres("hotline.receiveFile#2") == nil
+//@   before call os.Mkdir assert callres("os.Stat#1", 1) != nil
+//@   before call (io.ReadWriter).Write#3 assert len(arg1) == 2 && arg1[0] == 0 && arg1[1] == ite(callres("os.Stat#3", 1) == nil, 2, ite(callres("os.Stat#2", 1) == nil, 3, 1))
+//@   before call hotline.NewForkInfoList assert u32(bytes(arg0)) == callres("Size") % 4294967296
+//@   before call hotline.NewFileWrapper assert callres("os.Stat#2", 1) != nil && callres("os.Stat#3", 1) != nil
+
+// ---------------------------------------------------------------------------------
+// C11: a file's side files travel or vanish with it.  Move renames the data fork and then each of
+// the three side files from the wrapper's own paths to the name derived from the wrapper's CURRENT
+// name in the new directory; Delete removes the same four paths.
+
+//@ func (f *fileWrapper) Move(newPath string) (err error)
+//@   property C11
+//@   requires f != nil
+//@   before call (hotline.FileStore).Rename#1 assert arg1 == f.dataPath && arg2 == pjoin2(newPath, f.Name)
+//@   before call (hotline.FileStore).Rename#2 assert arg1 == f.incompletePath && arg2 == pjoin2(newPath, strcat(f.Name, ".incomplete"))
+//@   before call (hotline.FileStore).Rename#3 assert arg1 == f.rsrcPath && arg2 == pjoin2(newPath, pfmt(".rsrc_%s", f.Name))
+//@   before call (hotline.FileStore).Rename#4 assert arg1 == f.infoPath && arg2 == pjoin2(newPath, pfmt(".info_%s", f.Name))
+//@   ensures err == nil ==> ghost(effects) == 4
+
+//@ func (f *fileWrapper) Delete() (err error)
+//@   property C11
+//@   requires f != nil
+//@   before call (hotline.FileStore).RemoveAll assert arg1 == f.dataPath
+//@   before call (hotline.FileStore).Remove#1 assert arg1 == f.incompletePath
+//@   before call (hotline.FileStore).Remove#2 assert arg1 == f.rsrcPath
+//@   before call (hotline.FileStore).Remove#3 assert arg1 == f.infoPath
+//@   ensures err == nil ==> ghost(effects) == 4
+
+// The wrapper's side-file paths are derived from the addressed path.
+
+//@ func NewFileWrapper(fs FileStore, path string, dataOffset int64) (r *fileWrapper, err error)
+//@   property C11
+//@   before call path/filepath.Join#1 assert arg0[0] == pdir(path) && arg0[1] == pfmt(".rsrc_%s", pbase(path))
+//@   before call path/filepath.Join#2 assert arg0[0] == pdir(path) && arg0[1] == pfmt(".info_%s", pbase(path))
+//@   before call path/filepath.Join#3 assert arg0[0] == pdir(path) && arg0[1] == strcat(pbase(path), ".incomplete")
+
+// The listing: an entry is listed only if the ignore filter passes it, under its name with a
+// partial-upload suffix removed and Mac-Roman encoded; the name length field is the encoded length
+// (precondition of the FileNameWithInfo cursor at the drain site); folder item counts use the same
+// filter.
+
+//@ func GetFileNameList(path string, ignoreList []string) (fields []Field, err error)
+//@   property C11
+//@   before call hotline.ignoreFile#1 assert arg0 == callres("Name#1") && same(arg1, ignoreList)
+//@   before call hotline.ignoreFile#2 assert same(arg1, ignoreList)
+//@   before call hotline.ignoreFile#3 assert same(arg1, ignoreList)
+//@   before call hotline.NewField assert !callres("hotline.ignoreFile#1") && arg0[0] == 0 && arg0[1] == 200 && same(arg1, callres("io.ReadAll", 0))
+//@   before call strings.ReplaceAll assert arg1 == ".incomplete" && arg2 == ""
+//@   before call (*golang.org/x/text/encoding.Encoder).String assert arg1 == callres("strings.ReplaceAll")
+//@   before call hotline.NewFileWrapper assert arg2 == 0
+//@   loop 1 invariant isnil(fields) || (fresh(fields) && disjoint(fields, files))
+//@   loop 1 modifies nothing
+//@   loop 2 modifies nothing
+//@   loop 3 modifies nothing
+
+// Helpers of the listing leave memory alone.
+
+//@ func ignoreFile(fileName string, ignoreList []string) (r bool)
+//@   modifies nothing
+//@   loop 1 modifies nothing
+
+//@ func fileTypeFromFilename(filename string) (ft fileType)
+//@   modifies nothing
+
+// The size shown for a file without resource fork is its size on disk (minus the wrapper's offset).
+
+//@ func (f *fileWrapper) TotalSize() (r []byte)
+//@   requires f != nil
+//@   ensures len(r) == 4
+//@   modifies nothing
+
+//@ func (f *fileWrapper) TotalSize() (r []byte)
+//@   property C11
+//@   before call PutUint32 assert callres("Stat#1", 1) == nil && callres("Stat#2", 1) != nil ==> arg2 == (callres("Size#1") - f.dataOffset) % 4294967296
